@@ -70,6 +70,29 @@ func c07Exec(cs fw.Case) *fw.Fail {
 		src := c.Src
 		n := len(src)
 		const exp = "ParseFile under this partition = Parse of the whole input (same success, byte-identical dump, same diagnostics)"
+		if c.Mode == "fixed" {
+			// larger inputs (many lines, several pages): fixed read sizes
+			want := obsWhole(src)
+			for _, k := range []int{1, 7, 64, 100, 1000, 4095, 4096, 4097} {
+				var sizes []int
+				for i := 0; i < n; i += k {
+					sizes = append(sizes, k)
+				}
+				for _, eof := range []bool{false, true} {
+					sc := scriptOf(sizes)
+					if eof && len(sc) > 0 {
+						sc[len(sc)-1].Err = "EOF"
+					}
+					fw.Tally("partitions", 1)
+					got, _ := obsFile(src, sc)
+					if d := diffObs(want, got); d != "" {
+						return fw.Failf(exp, "reads of %d bytes (last with EOF: %v): %s", k, eof, d)
+					}
+				}
+			}
+			fw.TallyNontrivial()
+			return nil
+		}
 		if c.Mode == "zeros" {
 			// many zero-byte reads scattered over the whole input (each must be ignored, however many there are)
 			want := obsWhole(src)
@@ -220,7 +243,7 @@ func init() {
 		ID:    "C07",
 		Level: "model_checking",
 		Rule: "inputs: the hand-written corpus programs up to 60 bytes, every token kind alone and every ordered pair of 52 token/separator/failure spellings (two-character operators, escapes, comments, CR LF, 2-, 3- and 4-byte characters in strings, in comments and bare, U+0085/U+00A0 as whitespace, every lexical failure kind), bare and after `print `. " +
-			"For each input EVERY partition into reads is enumerated: all 2^(n-1) compositions for n<=13 (thorough 16) plus zero-byte reads at every cut, every partition also with its last piece delivered together with io.EOF; all partitions with <=2 (thorough 3) cut points for longer inputs, each also with a zero-byte read; hundreds of zero-byte reads scattered over inputs of 100-600 bytes; and the real 4096-byte pages with the page boundary at every offset 0..n of the input (two kinds of padding). " +
+			"For each input EVERY partition into reads is enumerated: all 2^(n-1) compositions for n<=13 (thorough 16) plus zero-byte reads at every cut, every partition also with its last piece delivered together with io.EOF; all partitions with <=2 (thorough 3) cut points for longer inputs, each also with a zero-byte read; hundreds of zero-byte reads scattered over inputs of 100-600 bytes; long inputs (65 to 2288 lines, several pages, errors on late lines) under 8 fixed read sizes; and the real 4096-byte pages with the page boundary at every offset 0..n of the input (two kinds of padding). " +
 			"Oracle: ParseFile(scripted reader) = Parse(whole): same success, byte-identical dump, identical diagnostics. counters.partitions counts ParseFile executions.",
 		Subs:           []*fw.Sub{subC07},
 		BudgetQuick:    100,
@@ -261,6 +284,16 @@ func init() {
 				}
 			}
 			c.Do(subC07, &c07Case{Src: strings.Repeat("print 1 + 2 # c\n", 40) + "print )\n", Mode: "zeros"})
+			// long inputs: more than 64 / 240 / 2288 lines, several 4096-byte pages, errors on late lines
+			for _, sc := range gen.ScaledFamilies(false) {
+				if strings.HasPrefix(sc.Name, "lines-") || strings.HasPrefix(sc.Name, "pad") || strings.HasPrefix(sc.Name, "manyblocks-top") || strings.HasPrefix(sc.Name, "vars-1023") {
+					c.Do(subC07, &c07Case{Src: sc.Src, Mode: "fixed"})
+					c.Do(subC07, &c07Case{Src: sc.Src + "print )\nvar\n", Mode: "fixed"})
+				}
+			}
+			for _, k := range []int{30, 64, 65, 66, 100, 200, 700} {
+				c.Do(subC07, &c07Case{Src: strings.Repeat("print 1 +\n", k) + "2\nprint )\n\nprint (\n", Mode: "fixed"})
+			}
 			for _, a := range c07Tokens {
 				add(a)
 				add("print " + a)
